@@ -23,6 +23,8 @@ Definition code_fixed_F11 := true.
 Definition code_fixed_N1 := false.
 (* overlay.go: an unanswered tree request is retried (C09-N2) *)
 Definition code_fixed_N2 := false.
+(* network/local.go: send / close under back-pressure (C09-N3) *)
+Definition code_fixed_C09N3 := false.
 
 (* ---- operations of the harness ------------------------------------------- *)
 
@@ -395,6 +397,7 @@ Inductive case :=
          (obs_errs : nat) (obs_deliv : list nat)
 | CConfig (first_failed : bool) (obs_victim_msg obs_victim_cfg obs_control_cfg : bool)
 | CCluster (canaries canaries_done : nat) (sends_returned survivors_alive handlers_told after_restart_ok : bool)
+| CLocalFlood (k : nat) (closed_reached stop_returned sends_returned post_returned canary_ok : bool)
 | CTreeReq (request_unanswered : bool) (canaries canaries_done : nat) (sends_returned survivors_alive after_restart_ok : bool).
 
 (* ---- model side of the entry points ---------------------------------------- *)
@@ -447,6 +450,9 @@ Definition agree (c : case) : bool :=
       Bool.eqb vcfg (carries_config code_fixed_N1 (if first_failed then [RErr] else []))
   | CCluster canaries done returned alive told after =>
       (done =? canaries) && returned && alive && told && after
+  | CLocalFlood k closed_r stop_r sends_r post_r canary_r =>
+      let '(c, s, p, m) := flood_outcome code_fixed_C09N3 200 k in
+      Bool.eqb c closed_r && Bool.eqb c stop_r && Bool.eqb s sends_r && Bool.eqb p post_r && Bool.eqb m canary_r
   | CTreeReq unanswered canaries done returned alive after =>
       (done =? canaries) && returned && alive && Bool.eqb after (asks_again code_fixed_N2 unanswered)
   end.
@@ -640,6 +646,9 @@ Definition check (c : case) : list nat :=
       clause 4 vmsg
   | CCluster canaries done returned alive told after =>
       clause 5 ((done =? canaries) && returned && alive) ++ clause 3 told ++ clause 4 after
+  | CLocalFlood k closed_r stop_r sends_r post_r canary_r =>
+      (* the shutdown of the peer must get through, every Send must return, the survivor must go on *)
+      clause 5 (closed_r && stop_r && sends_r && post_r && canary_r)
   | CTreeReq _ canaries done returned alive after =>
       clause 5 ((done =? canaries) && returned && alive) ++ clause 4 after
   end.
